@@ -71,8 +71,13 @@ func New(t *tape.Tape, o Options) (*Universe, error) {
 		nf := t.Range("mfiles", 1, o.MaxFiles)
 		for j := 0; j < nf; j++ {
 			path := fmt.Sprintf("m%d/f%d.proto", i, j)
-			if t.Draw("nest", 3) == 2 {
+			switch t.Draw("nest", 6) {
+			case 2:
 				path = fmt.Sprintf("m%d/sub/f%d.proto", i, j)
+			case 3:
+				path = fmt.Sprintf("m%d/two  spaces/f%d.proto", i, j)
+			case 4:
+				path = fmt.Sprintf("m%d/ünï cødé/f %d.proto", i, j)
 			}
 			imp := ""
 			if i > 0 && t.Draw("dep", 2) == 1 {
